@@ -10,9 +10,11 @@
   C02.X      the emitter-side fact that justifies the single exemption of C02.R (RegisterUpvalue is preceded by CopyLast).
 """
 from collections import defaultdict
-from cao.facts import (AnchorMissing, callee_names, short, op_local, op_place, DefUse, hir_walk, hir_callee, rvalue_places)
+from cao.facts import (AnchorMissing, callee_names, short, op_local, op_place, DefUse, hir_walk, hir_callee, rvalue_places,
+                       hir_children, pat_bindings)
 from cao.rules import Rule, ok, bad, undecided, note
 from cao import mirutil as mu
+from cao import hirutil as hu
 
 EXPLANATION = (
     "The property quantifies over GC schedules, but the collector runs inside CaoLangAllocator::alloc, its root set is "
@@ -233,7 +235,7 @@ DERIVED = {
 
 def check_value_derivation(F):
     """_close_upvalues stores &mut upvalue.value into upvalue.location"""
-    f = F.fn("vm::instr_execution::_close_upvalues")
+    f = mu.upvalue_closer(F)
     for bi, si, st in ((bi, si, st) for bi, b in enumerate(f.blocks) for si, st in enumerate(b["stmts"]) if st["k"] == "assign"):
         fp = mu.field_path(st["place"])
         if fp[-1:] == ["location"]:
@@ -338,6 +340,89 @@ def rule_m(F):
 # ---------------------------------------------------------------------------------------------------
 
 MARKER = "vm::runtime::cao_lang_object::GcMarker"
+
+
+def rule_b(F):
+    """C02.B: the collector's scans run to completion. A user-written `break` / `return` inside a loop of gc() is accepted
+    only as the end of a search for *one* root: the loop it leaves is nested in another loop and the condition that leads
+    to the exit mentions that outer loop's item (frame -> its closure object). A scan over a whole set of roots or
+    candidates that stops at the first hit leaves the remaining ones unmarked; the sweep then frees objects still in use."""
+    res = []
+    gc = F.fn("vm::runtime::RuntimeData::gc")
+    inits = hu.let_inits(gc)
+    parents = {}
+    for x in hir_walk(gc.hir["body"]):
+        for c in hir_children(x):
+            parents[id(c)] = x
+    exits = [x for x in hir_walk(gc.hir["body"]) if x.get("k") in ("break", "ret") and not x.get("exp")]
+    loops_total = sum(1 for x in hir_walk(gc.hir["body"]) if x.get("k") == "loop")
+    if loops_total < 8:
+        raise AnchorMissing("loops of RuntimeData::gc (found %d)" % loops_total)
+
+    def refs(e, depth=0, seen=None):
+        seen = seen if seen is not None else set()
+        out = set()
+        for y in hir_walk(e):
+            if y.get("k") == "path" and y["path"]["res"].get("k") == "local":
+                lid = y["path"]["res"]["id"]
+                out.add(lid)
+                if lid not in seen and depth < 6:
+                    seen.add(lid)
+                    for i in inits.get(lid, []):
+                        out |= refs(i, depth + 1, seen)
+        return out
+
+    def loop_bindings(lp):
+        out = set()
+        for y in hir_walk(lp):
+            if y.get("k") == "match" and y.get("source") in ("ForLoopDesugar", "WhileLetDesugar") or y.get("k") == "match" and y.get("exp"):
+                for a in y["arms"]:
+                    out |= set(i for i, _ in pat_bindings(a["pat"]))
+                break
+        for st in lp["body"]["stmts"]:
+            if st["k"] == "let":
+                out |= set(i for i, _ in pat_bindings(st["pat"]))
+        return out
+
+    n = 0
+    for ex in exits:
+        chain = []
+        p = parents.get(id(ex))
+        while p is not None:
+            chain.append(p)
+            p = parents.get(id(p))
+        loops = [c for c in chain if c.get("k") == "loop"]
+        if not loops:
+            continue   # an exit outside any loop (none today)
+        n += 1
+        inner = loops[0]
+        conds = []
+        for c in chain:
+            if c is inner:
+                break
+            if c.get("k") == "if":
+                conds.append(c["cond"])
+            if c.get("k") == "match":
+                conds.append(c.get("e") or c.get("scrut"))
+        used = set()
+        for c in conds:
+            if c is not None:
+                used |= refs(c)
+        outer = loops[1:]
+        key = "C02/B/gc/%s#%d-ends-a-search-for-one-root" % (ex["k"], n)
+        if ex["k"] == "ret":
+            res.append(bad("C02.B", key, gc.loc(ex.get("ln")), "gc() returns from inside a marking/sweeping loop: the rest of the roots are never marked"))
+        elif any(used & loop_bindings(o) for o in outer):
+            res.append(ok("C02.B", key, gc.loc(ex.get("ln")), "leaves the inner search once the outer loop's item is found; the outer loop goes on"))
+        else:
+            res.append(bad("C02.B", key, gc.loc(ex.get("ln")),
+                           "gc() leaves a scan with `break` after the first hit, and the scan is not a per-item search nested in a loop over "
+                           "the roots (the exit condition does not mention an enclosing loop's item): every root after the first match stays "
+                           "unmarked - e.g. only the first call frame's closure is kept, the closures of the other active frames are freed "
+                           "by the sweep while they are still executing"))
+    if n == 0:
+        res.append(ok("C02.B", "C02/B/gc/no-early-exit", gc.loc(), "no user-written break/return inside any of the %d loops of gc()" % loops_total))
+    return res
 
 
 def rule_p(F):
@@ -715,6 +800,7 @@ def _arity(path):
 
 RULES = [
     Rule("C02.V", rule_v, 1, "the mark phase enumerates children through complete views"),
+    Rule("C02.B", rule_b, 1, "no scan of gc() stops early except a nested search for one root"),
     Rule("C02.K", rule_k, 9, "the collector never overwrites the Protected marker"),
     Rule("C02.Roots", rule_roots, 7, "gc's root set covers every reference-bearing field of RuntimeData/CallFrame"),
     Rule("C02.M", rule_m, 6, "the mark loop follows every reference-bearing field of every object kind"),
